@@ -258,13 +258,17 @@ fn event_matches(ev: &LogEvent, exp: &ExpEvent) -> Result<(), String> {
     ev.write_jsonl(&mut buf).map_err(|e| e.to_string())?;
     let line = String::from_utf8_lossy(&buf).to_string();
     let pairs = parse_jsonl(&line).ok_or_else(|| format!("unparseable line {line:?}"))?;
-    if pairs.len() < 3 || pairs[0].0 != "time" || pairs[1].0 != "level" || pairs.last().unwrap().0 != "time_ns" {
-        return Err(format!("fixed members missing or misplaced in {line:?}"));
+    // the fixed members time, level, time_ns may sit anywhere; the rest are the tags, in order
+    let find = |n: &str| pairs.iter().position(|(k, _)| k == n);
+    let (ti, li, ni) = match (find("time"), find("level"), pairs.iter().rposition(|(k, _)| k == "time_ns")) {
+        (Some(a), Some(b), Some(c)) => (a, b, c),
+        _ => return Err(format!("fixed members time/level/time_ns missing in {line:?}")),
+    };
+    if pairs[li].1 != format!("{:?}", exp.level) {
+        return Err(format!("level {} but {:?} expected", pairs[li].1, exp.level));
     }
-    if pairs[1].1 != format!("{:?}", exp.level) {
-        return Err(format!("level {} but {:?} expected", pairs[1].1, exp.level));
-    }
-    let got = &pairs[2..pairs.len() - 1];
+    let got_vec: Vec<(String, String)> = pairs.iter().enumerate().filter(|(i, _)| *i != ti && *i != li && *i != ni).map(|(_, p)| p.clone()).collect();
+    let got = &got_vec[..];
     let render = |t: &[(String, String)]| t.iter().map(|(n, v)| format!("{n}={v}")).collect::<Vec<_>>().join(" ");
     let render_exp = |t: &[(String, Option<String>)]| t.iter().map(|(n, v)| format!("{n}={}", v.clone().unwrap_or_else(|| "<number>".into()))).collect::<Vec<_>>().join(" ");
     if got.len() != exp.tags.len() {
@@ -381,7 +385,7 @@ fn scenario(cfg: &RunCfg) -> Outcome {
     let mut thread_tags: Vec<Vec<(String, Option<String>)>> = vec![Vec::new(); nthreads];
     let mut loggers: Vec<(Option<Receiver<LogEvent>>, Vec<ExpEvent>)> = Vec::new(); // receiver (None = dropped), pending expectations
     let mut guard: Option<ClearGlobalLoggerOnDrop> = None;
-    let mut stdout_expected: Vec<String> = Vec::new();
+    let mut stdout_expected: Vec<ExpEvent> = Vec::new();
     let mut trace: Vec<String> = Vec::new();
     let mut events_checked = 0u64;
     let mut outcome: Option<Outcome> = None;
@@ -401,11 +405,7 @@ fn scenario(cfg: &RunCfg) -> Outcome {
                 }
                 Global::None | Global::Default => {
                     global = Global::Default;
-                    stdout_expected.push(format!(
-                        "{} {}",
-                        ev.level,
-                        ev.tags.iter().map(|(n, v)| format!("{n:?}:{}", v.clone().unwrap_or_default())).collect::<Vec<_>>().join(",")
-                    ));
+                    stdout_expected.push(ev.clone());
                     true
                 }
             }
@@ -605,40 +605,52 @@ fn scenario(cfg: &RunCfg) -> Outcome {
     if let Some(cap) = capture.as_mut() {
         if outcome.is_none() {
             let lines = cap.read_lines(stdout_expected.len(), Duration::from_secs(30));
-            let mut got: Vec<String> = lines
-                .iter()
-                .map(|l| {
-                    // "<time> <level> <tags>"
-                    let mut it = l.splitn(2, ' ');
-                    let _time = it.next();
-                    it.next().unwrap_or("").to_string()
-                })
-                .collect();
-            // mask numeric values of request_id / duration_ms for comparison
-            let mask = |s: &str| -> String {
-                let mut out = String::new();
-                for part in s.split(',') {
-                    if !out.is_empty() {
-                        out.push(',');
+            // The human-readable stdout format is not part of the property: every expected
+            // event must be found in exactly one line that carries its level and all its
+            // tag names and values, in order; no line may be left over.
+            let mut unused: Vec<&String> = lines.iter().collect();
+            let mut missing = None;
+            for ev in &stdout_expected {
+                let matches = |l: &str| -> bool {
+                    if !l.contains(ev.level) {
+                        return false;
                     }
-                    if part.starts_with("\"duration_ms\":") {
-                        out.push_str("\"duration_ms\":");
-                    } else {
-                        out.push_str(part);
+                    let mut pos = 0usize;
+                    for (n, v) in &ev.tags {
+                        match l[pos..].find(n.as_str()) {
+                            Some(i) => pos += i + n.len(),
+                            None => return false,
+                        }
+                        if let Some(v) = v {
+                            match l[pos..].find(v.as_str()) {
+                                Some(i) => pos += i + v.len(),
+                                None => return false,
+                            }
+                        }
+                    }
+                    true
+                };
+                match unused.iter().position(|l| matches(l)) {
+                    Some(i) => {
+                        unused.remove(i);
+                    }
+                    None => {
+                        missing = Some(ev.clone());
+                        break;
                     }
                 }
-                out
-            };
-            let mut want: Vec<String> = stdout_expected.iter().map(|s| mask(s)).collect();
-            got = got.iter().map(|s| mask(s)).collect();
-            got.sort();
-            want.sort();
-            if got != want {
+            }
+            if let Some(ev) = missing {
                 outcome = Some(Outcome::fail(
                     "C18.stdout_default",
-                    format!("with no logger installed {} event(s) must reach the stdout default; stdout carried {} line(s); first expected {:?}, first got {:?}; steps: {trace:?}", want.len(), got.len(), want.first(), got.first()),
+                    format!("with no logger installed the event {:?} must reach the stdout default, but no stdout line carries it ({} lines seen, {} expected); steps: {trace:?}", ev.tags, lines.len(), stdout_expected.len()),
                 ));
-            } else if !want.is_empty() {
+            } else if !unused.is_empty() {
+                outcome = Some(Outcome::fail(
+                    "C18.stdout_default",
+                    format!("stdout carries {} line(s) that no logging call accounts for, e.g. {:?}; steps: {trace:?}", unused.len(), unused[0]),
+                ));
+            } else if !stdout_expected.is_empty() {
                 gen::count("probe.stdout_default_observed");
             }
         }
